@@ -34,7 +34,8 @@ reg("C01",
 reg("C02",
     "Property-based round-trip/differential test: well-formed streams are produced by the reference encoder from generated wire "
     "forests (any flag byte, known/unknown pairs, nested Grouped, 1-4 messages); every decoded field is compared with the generated "
-    "value and the re-encoding with the original bytes.",
+    "value and the re-encoding with the original bytes. Plus a concurrent part: two generated streams decoded by two controlled "
+    "threads with directed delays between source lines of the shared class-registry code; each must decode as it does alone.",
     "Trusted: reference encoder and dictionary. One root cause is a listed known finding (decode re-flags known AVPs); its "
     "signatures are exact so any other flag/data deviation is still reported.",
     "property-based round-trip testing with generator-side expected values (Hypothesis)", "DESIGN.md#c02")
@@ -81,9 +82,9 @@ reg("C12",
     "Property-based test over every typed request/answer pair (C09 argument generator) x Result-Code (library constants, random and "
     "boundary codes; exhaustive 1001..5999 sweep on one pair in quick, six in thorough) x {Result-Code, Experimental-Result, both} x "
     "{request as built, as decoded}, through decorate_answer and through callback_route with an in-process Worker; the sent message "
-    "is read with the reference decoder.",
-    "Trusted: reference decoder; in-process Worker with a fake multiprocessing manager. Handler answers are freshly constructed "
-    "typed answers; multiples of 1000 are not generated.",
+    "is read with the reference decoder. Answer objects are fresh, or carry an E bit set by the handler, or are reused objects that "
+    "already went through decorate_answer / family predicates before their Result-Code was changed in place.",
+    "Trusted: reference decoder; in-process Worker with a fake multiprocessing manager. Multiples of 1000 are not generated.",
     "property-based testing + exhaustive code sweep, reference-decoded output", "DESIGN.md#c12")
 reg("C13",
     "Property-based test over generated route tables (1-3 applications x command codes, shared codes), request histories of 1-4 requests "
@@ -163,10 +164,11 @@ reg("C07",
     "model-based history testing with a positional request/answer oracle", "DESIGN.md#c07")
 
 reg("C14",
-    "Controlled-scheduler concurrency test on a real Bromelia object with an in-process Worker (shim primitives, real send_handler "
-    "loop): 1-4 callers in send_message(), answers dispatched through the real handler_pending_answers in generated permutations "
+    "Controlled-scheduler concurrency test on a real Bromelia object with in-process Workers (shim primitives, real send_handler "
+    "loops): 1-4 callers in send_message(), optionally over two connections with the same Hop-by-Hop id outstanding on both, answers dispatched through the real handler_pending_answers in generated permutations "
     "and delays, duplicates and unsolicited answers, random/PCT-like schedule prefixes with optional line preemption, plus a "
-    "targeted schedule that keeps a caller unscheduled between queueing and registering until its answer has been handled; "
+    "targeted schedule that keeps a caller unscheduled between queueing and registering until its answer has been handled, and "
+    "directed delays between source lines of the registry / rendezvous functions; "
     "oracle = identity of the returned answer object, bounded liveness, empty registry.",
     "'Always wakes' is bounded liveness (20 virtual seconds, fair completion); schedules sampled + one targeted window.",
     "controlled-scheduler concurrency testing (random, PCT-like and targeted preemption)", "DESIGN.md#c14")
